@@ -106,10 +106,11 @@ class VonMisesTube(om.ExplicitComponent):
         radius = inputs["radius"]
         disp = inputs["disp"]
         nodes = inputs["nodes"]
-        T = self.T
+        # Work arrays of the dtype of the current inputs (those left by the last compute call may be complex)
+        T = np.zeros((3, 3), dtype=nodes.dtype)
         E = self.E
         G = self.G
-        x_gl = self.x_gl
+        x_gl = np.array([1, 0, 0], dtype=nodes.dtype)
 
         num_elems = self.ny - 1
         for ielem in range(num_elems):
